@@ -395,9 +395,11 @@ func (t *tkRun) runBearer(cs tkCase, xi int, hdrKind string) {
 		}
 		if !found {
 			c.violation("C04", "bearer token accepted although no configured verifier's clauses (key, issuer, expiry, audience) hold for it", input)
+			c.violation("C01", "a request whose only credential is a bearer token no configured verifier accepts (key, issuer, expiry, audience) was treated as authenticated", input)
 		}
 		if hdrKind == "basic-bad" || hdrKind == "lower" {
 			c.violation("C04", "token accepted from an Authorization shape that must not carry one", input)
+			c.violation("C01", "a request without a credential (an Authorization shape that must not carry a token) was treated as authenticated", input)
 		}
 		if served && tkHeaderIdentity(ra.Hits[0].Header) != uid.headerForm() {
 			c.violation("C04", "identity headers sent upstream differ from the bearer session's identity", map[string]interface{}{"headers": tkHeaderIdentity(ra.Hits[0].Header), "session": uid})
@@ -413,6 +415,7 @@ func (t *tkRun) runBearer(cs tkCase, xi int, hdrKind string) {
 			if t.factsFor(i).LibOK && tkAudOracle(m.AudClaims, append([]string{aud}, m.Extra...), t.lastClaims) {
 				input["verifier"] = i
 				c.violation("C04", "bearer token refused although it is validly signed by a configured issuer for its audience, unexpired, with a verified e-mail", input)
+				c.violation("C01", "a request with a valid, authorised bearer token (validly signed by a configured issuer for its audience, unexpired, verified e-mail) was not served", input)
 				break
 			}
 		}
